@@ -87,7 +87,7 @@ theorem patched_patched (b : Bytes) (a : Nat) (x y : Bytes) (h : a + (x.length +
 
 theorem copyAt_eq (b : Bytes) (a : Nat) (src : Bytes) (h : a + src.length ≤ b.length) :
     copyAt b a src = some (patched b a src) := by
-  simp [copyAt, h, patched]
+  simp [copyAt, LeLen, h, patched]
 
 /-! ## cursors -/
 
@@ -220,7 +220,7 @@ theorem wrapLoop_spec (buf : Bytes) (lo len refSize : Nat) :
     simp only [List.length_cons, Nat.add_mul, Nat.one_mul] at hlen
     rw [wrapLoop]
     have h1 : i < len := by omega
-    have h2 : lo + i + refSize + 8 ≤ buf.length := by omega
+    have h2 : LeLen (lo + i + refSize + 8) buf := by show _ ≤ _; omega
     simp only [h1, h2, ↓reduceIte]
     have hs1 := slice_split buf (lo + i) (refSize + 8) (lo + len) r rest.flatten (by simpa using hsl) hr (by omega)
     have hs2 := slice_split buf (lo + i) 8 (lo + i + (refSize + 8)) (r.take 8) (r.drop 8)
@@ -272,7 +272,7 @@ theorem wrap_step (P : Params) (hs : ShortOK P) (l : List Bytes) (up : List (Lis
   have hR := le_mul_of_one_le l.length P.oneRef hl1
   rw [wrapFullLevel]
   have hm : ¬ maxLevel ≤ ℓ := by simp only [maxLevel]; omega
-  have hbd : s.cur (ℓ + 1) ≤ s.cur ℓ ∧ s.cur ℓ ≤ s.buffer.length := ⟨h1, hb⟩
+  have hbd : s.cur (ℓ + 1) ≤ s.cur ℓ ∧ LeLen (s.cur ℓ) s.buffer := ⟨h1, hb⟩
   simp only [hm, ↓reduceIte, hbd, and_self, not_true_eq_false]
   have hloop := wrapLoop_spec s.buffer (s.cur (ℓ + 1)) (s.cur ℓ - s.cur (ℓ + 1)) P.refSize l 0 0 []
     h3 (by rw [Nat.add_zero, show s.cur (ℓ + 1) + (s.cur ℓ - s.cur (ℓ + 1)) = s.cur ℓ by omega]; exact h2)
@@ -818,7 +818,8 @@ theorem trieSum_sim (P : Params) (hB : 2 ≤ P.branching) (hs : ShortOK P) (s : 
     rw [hc9] at g2
     simp only [List.flatten_cons, List.flatten_nil, List.append_nil] at g2
     have he : e.length = P.refSize + 8 := g3 e (by simp)
-    simp only [h1, ne_eq, not_true_eq_false, ↓reduceIte, hb', g2, he, Nat.le_add_left]
+    have hb'' : LeLen (s'.cur 8) s'.buffer := hb'
+    simp only [h1, ne_eq, not_true_eq_false, ↓reduceIte, hb'', g2, he, Nat.le_add_left]
     exact ⟨s', rfl, hsent'⟩
   | [], _, hc3, hroot =>
     have ho : o = none := by rw [hroot]; simp [sumUp]
